@@ -207,6 +207,49 @@ theorem returned_contexts_live (hq : ∀ e, e ∈ evs → PfC11.QuietEv e)
     ∀ i, i ∈ rs → s.ctx i = false :=
   PfC11.returned_contexts_live hq hr hm hnc
 
+/-! ### progress before the return -/
+
+/-- **Partial** — progress of the main loop while it runs. In every reachable state in which the call has
+not returned, either an event of the loop / the instance goroutines / the callbacks is enabled
+(`PfC11.LoopEv`: the loop receives a posted result, a released goroutine calls `f`, a goroutine whose
+release channel was closed or whose context is cancelled gives up, a running callback may return —
+never a cancellation or a timer tick), or EVERY instance is parked (`PfC11.Parked`): its result was
+already consumed, or it is still held back by request minimisation (in `awaitStart`, not released,
+context live).
+
+Missing for the full statement ("no deadlock while callbacks are outstanding; under weak fairness the
+call returns"): the all-parked alternative is unreachable while `main = running`. Two facts are needed,
+neither is an invariant of `Proofs/C11` yet: (a) while running, a consumed instance is in `resMap` or
+`doneErr`, so "all consumed" gives `succeeded ∨ failed` by counting, contradicting
+`running_means_undecided_obs`; (b) with minimisation, while `pending ≠ []`:
+`released.length = minUnits + nFailRel (+ nTicks)` and `nFailRel` = number of counted failures (failed
+zones), so "all released units consumed, some unit held" again gives `succeeded`. (b) needs `order` to be
+a permutation of the units — NECESSARY: `progress_needs_order_witness`. Then weak fairness + the measure
+`PfC11.mu` (each `LoopEv` decreases it, as in `drain_terminates`) would give termination. -/
+theorem progress_before_return_partial (hr : run c (init c order pre) evs = some s) (hm : s.main = .running) :
+    (∃ e, PfC11.LoopEv e ∧ (step c s e).isSome = true) ∨ (∀ i, i < c.n → PfC11.Parked s i) :=
+  PfC11.progress_before_return_partial hr hm
+
+/-- flat, 2 instances, no tolerance, minimisation. -/
+def pgCfg : Cfg :=
+  { zones := [0, 0], maxErrors := 0, maxUnavail := 0, zoneAware := false, minimize := true, hedging := false
+    hasTerm := false, cancelAll := false }
+
+/-- **Witness**: with an `order` that is not a permutation of the instances (here `[]`; Go passes
+`rand.Perm(n)`, which the harness observes but no theorem assumes) the model is parked at once: running,
+nothing released, every instance held — so the full progress statement needs that hypothesis. -/
+theorem progress_needs_order_witness :
+    let s := init pgCfg [] false
+    (s.main, (List.range 2).map fun i => (s.phase i, s.rel i, s.ctx i)) =
+      (.running, [(.waiting, .held, false), (.waiting, .held, false)]) := by decide +kernel
+
+-- non-vacuity of `progress_before_return_partial`: with the real order the first alternative holds (`begin 1` is enabled) …
+example : ((run pgCfg (init pgCfg [1, 0] false) []).map fun s => (s.main, (step pgCfg s (.begin 1)).isSome)) =
+    some (.running, true) := by decide +kernel
+-- … and one callback outstanding, the other consumed: `finish 0 ok` is enabled
+example : ((run pgCfg (init pgCfg [1, 0] false) [.begin 1, .begin 0, .finish 1 .ok, .recv]).map
+    fun s => (s.main, s.phase 1, (step pgCfg s (.finish 0 .ok)).isSome)) = some (.running, .consumed, true) := by decide +kernel
+
 /-! ### after the return everything drains -/
 
 /-- Progress: after the return, unless everything is over, some goroutine can move — the drain
